@@ -132,6 +132,13 @@ func (o *Out) Note(text string) {
 	o.mu.Unlock()
 }
 
+// Begin marks the start of a unit of work (one scenario) and flushes: when the process dies inside the unit (a panic in
+// a library goroutine cannot be recovered by the harness) the check attributes the crash to this unit.
+func (o *Out) Begin(text string) {
+	o.Note("BEGIN " + text)
+	o.Flush()
+}
+
 func (o *Out) Close() {
 	o.mu.Lock()
 	defer o.mu.Unlock()
